@@ -51,7 +51,15 @@ def replay_row(row, calc, coll, array_form=False, coll_jit=None):
         return None, added, 0
     out = coll(1.0, 1.0, 1.0, 1.0, 1.0, M_HOST, S_SUS, love, terms, max(Ls), True)
     replay_row.array_issue = None
-    if array_form:
+    # tidal_scale multiplies the dissipating volume: heating AND the three potential derivatives scale with it (a binary fraction:
+    # the scaling is exact); the mode-sum identities are homogeneous in it
+    out_s = coll(1.0, 1.0, 1.0, 1.0, 0.375, M_HOST, S_SUS, love, terms, max(Ls), True)
+    for k, nm in enumerate(("tidal_heating", "dUdM", "dUdw", "dUdO")):
+        a, b = float(out_s[k]), 0.375 * float(out[k])
+        if abs(a - b) > 1e-11 * max(1.0, abs(b)):           # same normalisation as the definition clause: sums that cancel leave rounding noise
+            replay_row.array_issue = ("tidal_scale", "collapse_modes with tidal_scale = 0.375: %s = %r, 0.375 x the unscaled result = %r" % (nm, a, b))
+            break
+    if array_form and replay_row.array_issue is None:
         # array-valued frequencies / Love numbers: the caller's containers must come back untouched, a second call with the same
         # containers must give the same numbers, and every element must equal the scalar result
         import numpy as np
@@ -191,7 +199,24 @@ def physical(ck, rng, nstates):
                "spin/n": ratio, "rheology": rheo, "array": arr, "R": Rr, "rho": rho, "M_host": M, "n": n}
         ck.case(("phys", t), True)
         try:
+            if kind in (2, 3):
+                # a result must not depend on what was evaluated before: the same state at ANOTHER truncation level first (a sweep over
+                # truncation levels at fixed eccentricity), then the state itself, then (below) the classical limit / identities on it
+                other = 8 if trunc != 8 else 4
+                r_other = quick_tidal_dissipation(M, Rr, m, g, rho, moi, **dict(kw, eccentricity_truncation_lvl=other))
             res = quick_tidal_dissipation(M, Rr, m, g, rho, moi, **kw)
+            if kind == 3:
+                quick_tidal_dissipation(M, Rr, m, g, rho, moi, **dict(kw, eccentricity_truncation_lvl=other))
+                res_again = quick_tidal_dissipation(M, Rr, m, g, rho, moi, **kw)
+                for key in ("tidal_heating", "dUdM", "dUdw", "dUdO"):
+                    a1, a2 = np.asarray(res[key], dtype=float).ravel(), np.asarray(res_again[key], dtype=float).ravel()
+                    if not np.array_equal(a1, a2):
+                        ck.violation({"clause": "call_order", "what": key}, "%s at truncation %d: %r, after a call at truncation %d and back: %r: %s" % (key, trunc, a1.tolist(), other, a2.tolist(), det), det)
+                        break
+                if e > 0.05 and trunc != other:
+                    h1, h2 = float(np.asarray(res["tidal_heating"]).ravel()[-1]), float(np.asarray(r_other["tidal_heating"]).ravel()[-1])
+                    if h1 == h2 and h1 != 0.0:
+                        ck.violation({"clause": "call_order", "what": "truncation_ignored"}, "tidal heating at truncation %d equals the one at truncation %d bit for bit (%r) at e = %.3f: %s" % (trunc, other, h1, e, det), det)
         except ZeroDivisionError as ex:
             if kind == 1:
                 # all -Im k vanish: the effective-Q diagnostic divides by zero inside collapse_modes
